@@ -304,23 +304,25 @@ func abstractObs(w *world, bc *core.Blockchain) string {
 	cc, _ := bc.GetCommittee()
 	nv, _ := bc.GetNextBlockValidators()
 	fmt.Fprintf(&sb, " ccmt=%s nv=%s nenv=%s", pubsIdx(net, cc), pubsIdx(net, nv), pubsIdx(net, bc.ComputeNextBlockValidators()))
-	// NEO balances and votes
+	// NEO balances and votes: storage view of every account record
 	var bs []string
-	for _, a := range w.accountList() {
-		si := bc.GetStorageItem(nativeids.NeoToken, append([]byte{20}, a.BytesBE()...))
-		if si == nil {
-			continue
+	bc.SeekStorage(nativeids.NeoToken, []byte{20}, func(k, si []byte) bool {
+		a, err := util.Uint160DecodeBytesBE(k)
+		if err != nil {
+			return true
 		}
 		nb, err := state.NEOBalanceFromBytes(si)
 		if err != nil {
-			continue
+			return true
 		}
 		v := "-"
 		if nb.VoteTo != nil {
 			v = fmt.Sprint(net.IndexOf(nb.VoteTo))
 		}
 		bs = append(bs, fmt.Sprintf("%s:%s:%s", w.tok(a), nb.Balance.String(), v))
-	}
+		return true
+	})
+	sort.Strings(bs)
 	fmt.Fprintf(&sb, " neo=%s", joinOrDash(bs))
 	return sb.String()
 }
